@@ -982,6 +982,11 @@ def emit_call(E, f, env, ins, rty, callee, args, decls, retzero):
             t = args[0][0]
             if t.n == 32: return res('(%s ? (uint32_t)__builtin_ctz(%s) : 32u)' % (av[0], av[0]))
             if t.n == 64: return res('(%s ? (uint64_t)__builtin_ctzll(%s) : 64u)' % (av[0], av[0]))
+        if base in ('umul', 'uadd', 'usub', 'smul', 'sadd', 'ssub') and len(parts) > 3 and parts[2] == 'with' and parts[3] == 'overflow':
+            t = args[0][0]; bi = '__builtin_%s_overflow' % base[1:]
+            ct = E.cty(t); sct = ct if base[0] == 'u' else ct.replace('uint', 'int')
+            env.types[ins.res] = rty; decls.append((ins.res, rty))
+            return ['{ %s r_; %s.f1 = %s((%s)%s, (%s)%s, &r_); %s.f0 = (%s)r_; }' % (sct, env.local(ins.res), bi, sct, av[0], sct, av[1], env.local(ins.res), ct)]
         if base == 'eh' and parts[2] == 'typeid': return res('0')
         if base == 'trap': return ['__CPROVER_assert(0,"llvm.trap"); __CPROVER_assume(0);']
         if base == 'is' and parts[2] == 'constant': return res('0')
